@@ -28,6 +28,7 @@ import (
 	"net/netip"
 	"os"
 	"path/filepath"
+	"runtime"
 	"sort"
 	"strconv"
 	"strings"
@@ -54,6 +55,11 @@ type zzG09Sys struct {
 
 	upMu    sync.Mutex
 	upAsked []zzG09Asked
+
+	// restricted says that the access lists posted last are not all empty:
+	// only then is silence over UDP something to expect, and only then is it
+	// waited for briefly (a hint for HOW LONG to wait, never a verdict).
+	restricted bool
 }
 
 // zzG09Asked is one question seen by the mock upstream.
@@ -276,9 +282,22 @@ func zzG09API(method, path string, body any) (code int, resp []byte) {
 	}
 
 	w := httptest.NewRecorder()
+	// A real HTTP server recovers a panicking handler and drops the connection;
+	// here the handler runs on the caller's goroutine.
+	defer func() {
+		if p := recover(); p != nil {
+			code, resp = 599, []byte(fmt.Sprintf("panic in handler: %v\n%s", p, zzG09Stack()))
+		}
+	}()
 	globalContext.mux.ServeHTTP(w, r)
 
 	return w.Code, w.Body.Bytes()
+}
+
+func zzG09Stack() (s string) {
+	buf := make([]byte, 1<<13)
+
+	return string(buf[:runtime.Stack(buf, false)])
 }
 
 // ---------------------------------------------------- conc: abstract -> real
@@ -642,7 +661,16 @@ func (sys *zzG09Sys) query(rng *rand.Rand, op zzG09M, dropWait time.Duration) (r
 		r.Header.Set("Content-Type", "application/dns-message")
 		r.Header.Set("Accept", "application/dns-message")
 		w := httptest.NewRecorder()
-		globalContext.mux.ServeHTTP(w, r)
+		func() {
+			defer func() {
+				if p := recover(); p != nil {
+					w = httptest.NewRecorder()
+					w.WriteHeader(599)
+					_, _ = fmt.Fprintf(w, "panic in handler: %v\n%s", p, zzG09Stack())
+				}
+			}()
+			globalContext.mux.ServeHTTP(w, r)
+		}()
 		if w.Code != http.StatusOK {
 			return bad(fmt.Errorf("doh status %d: %s", w.Code, strings.TrimSpace(w.Body.String())))
 		}
@@ -670,7 +698,7 @@ func (sys *zzG09Sys) query(rng *rand.Rand, op zzG09M, dropWait time.Duration) (r
 		defer conn.Close()
 
 		d := 4 * time.Second
-		if proto == "udp" {
+		if proto == "udp" && sys.restricted {
 			d = dropWait
 		}
 
@@ -914,6 +942,7 @@ func (sys *zzG09Sys) exec(rng *rand.Rand, op zzG09M, dropWait, ruleWait time.Dur
 
 			return out
 		}
+		sys.restricted = len(op["allowed"].([]any))+len(op["disallowed"].([]any))+len(op["hosts"].([]any)) > 0
 		code, body = zzG09API(post, "/control/access/set", zzG09M{
 			"allowed_clients":    lst(op["allowed"], zzG09ConcAccEntry),
 			"disallowed_clients": lst(op["disallowed"], zzG09ConcAccEntry),
@@ -976,7 +1005,7 @@ func (sys *zzG09Sys) exec(rng *rand.Rand, op zzG09M, dropWait, ruleWait time.Dur
 
 	if code != http.StatusOK {
 		obs.Code = "err"
-		if code != http.StatusBadRequest {
+		if code != http.StatusBadRequest && code != http.StatusUnprocessableEntity {
 			obs.Err = fmt.Sprintf("status %d: %s", code, strings.TrimSpace(string(body)))
 		}
 	}
@@ -1016,10 +1045,29 @@ type zzG09Line struct {
 
 // zzG09Recorder turns observations into trace lines (log view as a delta).
 type zzG09Recorder struct {
-	w    *zzWriter
+	fh   *os.File
 	prev []zzG09LogItem
 	n    int
 }
+
+// zzG09NewRecorder opens the trace file named by VERIF_OUT.  Every line is
+// written through at once: if the server brings the process down, the trace
+// shows how far the history got.
+func zzG09NewRecorder(t testing.TB) (r *zzG09Recorder) {
+	p := os.Getenv("VERIF_OUT")
+	if p == "" {
+		t.Skip("no VERIF_OUT")
+	}
+
+	fh, err := os.Create(p)
+	if err != nil {
+		t.Fatalf("creating %s: %v", p, err)
+	}
+
+	return &zzG09Recorder{fh: fh}
+}
+
+func (r *zzG09Recorder) close() { _ = r.fh.Close() }
 
 func zzG09SameItem(a, b *zzG09LogItem) (ok bool) {
 	x, _ := json.Marshal(a)
@@ -1037,7 +1085,12 @@ func (r *zzG09Recorder) put(h, i int, op json.RawMessage, obs *zzG09Obs) {
 
 	obs.Head, obs.Tail = v[:len(v)-k], k
 	r.prev = v
-	r.w.put(&zzG09Line{H: h, I: i, Op: op, Obs: obs})
+	b, err := json.Marshal(&zzG09Line{H: h, I: i, Op: op, Obs: obs})
+	if err != nil {
+		panic(err)
+	}
+
+	_, _ = r.fh.Write(append(b, '\n'))
 	r.n++
 }
 
@@ -1070,6 +1123,7 @@ func (sys *zzG09Sys) reset(ruleWait time.Duration) (obs *zzG09Obs) {
 	code, body = zzG09API(post, "/control/access/set", zzG09M{
 		"allowed_clients": []string{}, "disallowed_clients": []string{}, "blocked_hosts": []string{}})
 	note("access/set", code, body)
+	sys.restricted = false
 
 	zzG09Marker++
 	marker := fmt.Sprintf("marker-%d.g09.invalid", zzG09Marker)
@@ -1144,8 +1198,8 @@ var zzG09ResetOp = json.RawMessage(`{"k":"reset"}`)
 // history that is not "fresh" starts with the reset prologue; a fresh one (only
 // meaningful as the first of the file) starts from the boot state.
 func TestZZVerifG09Run(t *testing.T) {
-	w := zzNewWriter(t, "VERIF_OUT")
-	defer w.close()
+	rec := zzG09NewRecorder(t)
+	defer rec.close()
 
 	type hist struct {
 		H     int               `json:"h"`
@@ -1173,7 +1227,6 @@ func TestZZVerifG09Run(t *testing.T) {
 	sys := zzG09Boot(t, dir, uint(zzG09EnvInt("VERIF_G09_MEMSIZE", 1000)))
 	defer sys.shutdown()
 
-	rec := &zzG09Recorder{w: w}
 	for _, h := range hists {
 		if !h.Fresh {
 			rec.put(h.H, 0, zzG09ResetOp, sys.reset(ruleWait))
@@ -1441,8 +1494,8 @@ func (g *zzG09Gen) next() (op zzG09M) {
 // first history starts from the boot state, the others from the reset
 // prologue.  Histories are numbered from VERIF_G09_FIRSTH.
 func TestZZVerifG09Random(t *testing.T) {
-	w := zzNewWriter(t, "VERIF_OUT")
-	defer w.close()
+	rec := zzG09NewRecorder(t)
+	defer rec.close()
 
 	dropWait := time.Duration(zzG09EnvInt("VERIF_G09_DROPWAIT", 250)) * time.Millisecond
 	ruleWait := time.Duration(zzG09EnvInt("VERIF_G09_RULEWAIT", 3000)) * time.Millisecond
@@ -1455,7 +1508,6 @@ func TestZZVerifG09Random(t *testing.T) {
 	sys := zzG09Boot(t, dir, uint(zzG09EnvInt("VERIF_G09_MEMSIZE", 1000)))
 	defer sys.shutdown()
 
-	rec := &zzG09Recorder{w: w}
 	for h := first; h < first+nh; h++ {
 		g := &zzG09Gen{rng: rand.New(rand.NewSource(zzSeed()*7907 + int64(h)))}
 		if h != first {
